@@ -189,6 +189,50 @@ def make_case(rng, maxdeg, nitv, budget=2500):
     return "c06 %s %d %s" % (",".join(str(c) for c in p), len(itvs), " ".join(itvs))
 
 
+def nested_case(rng):
+    """Roots of DIFFERENT square-free factors (different multiplicities) inside one dyadic cell: the per-factor bisections
+    return nested / overlapping isolating intervals (often with a common end point) in factor order, so the final sort by
+    lp_algebraic_number_cmp has to refine across factors; every assignment of multiplicities to the ordered roots occurs
+    (seeded change C06-4 needs the factor with the larger root first)."""
+    e = rng.choice([0, 1, 1, 2, 2, 3])
+    j = rng.randint(-3 * 2 ** e, 3 * 2 ** e)
+    lo, w = Fraction(j, 2 ** e), Fraction(1, 2 ** e)
+    roots = set()
+    if rng.random() < 0.45:
+        # a DYADIC root finer than the cell: the bisection of its factor ends in a point that lies strictly inside the
+        # isolating interval of a neighbouring root of another factor (seeded change C06-15)
+        t = rng.choice([2, 3, 3, 4, 5])
+        roots.add(lo + w * Fraction(2 * rng.randint(0, 2 ** (t - 1) - 1) + 1, 2 ** t))
+    nroots = rng.choice([2, 2, 3, 4])
+    while len(roots) < nroots:
+        d = rng.choice([3, 5, 7, 9, 11, 13, 6, 10, 12])
+        r = lo + w * Fraction(rng.randint(1, d - 1), d)
+        if lo < r < lo + w and r.denominator & (r.denominator - 1):      # not dyadic: bisection never hits it
+            roots.add(r)
+    roots = sorted(roots)
+    mults = rng.sample([1, 2, 3, 4], len(roots)) if rng.random() < 0.8 else [rng.choice([1, 2]) for _ in roots]
+    while sum(mults) > 7:
+        mults[mults.index(max(mults))] -= 1
+    p = [1]
+    for r, m in zip(roots, mults):
+        for _ in range(m):
+            p = pmul(p, lin(r))
+    if rng.random() < 0.3:
+        p = pmul(p, rng.choice([[0, 1], [-2, 0, 1], [1, 0, 1], lin(Fraction(rng.randint(-9, 9), 1))]))
+    c = rng.choice([1, 1, -1, 2])
+    p = [c * v for v in p]
+    pts = list(roots) + [lo, lo + w]
+    itvs = []
+    while len(itvs) < 4:
+        a, b = rand_end(rng, pts), rand_end(rng, pts)
+        if a == b:
+            continue
+        if a > b:
+            a, b = b, a
+        itvs.append(fmt_itv(a, rng.randint(0, 1), b, rng.randint(0, 1)))
+    return "c06 %s %d %s" % (",".join(str(v) for v in p), len(itvs), " ".join(itvs))
+
+
 def generate(rng, tier, corpus_only=False):
     n = 1400 if tier == "quick" else 5000
     budget = 2500 if tier == "quick" else 4000
@@ -197,6 +241,9 @@ def generate(rng, tier, corpus_only=False):
         k = rng.random()
         maxdeg = 4 if k < 0.3 else (7 if k < 0.8 else 10)
         cases.append(make_case(rng, maxdeg, rng.choice([4, 6, 8]), budget))
+    # structured block, generated after the weighted cases so that their random stream never shifts
+    for i in range(250 if tier == "quick" else 2500):
+        cases.append(nested_case(rng))
     return cases
 
 
